@@ -62,6 +62,11 @@ pub struct Stats {
 
 pub const MAX_WAIT: Duration = Duration::from_secs(60);
 
+/// Upper bound for a wait-for-quiet (VERIF_MAX_WAIT_S, default 60 s); exceeding it is reported as bg/stall
+pub fn max_wait() -> Duration {
+    Duration::from_secs(std::env::var("VERIF_MAX_WAIT_S").ok().and_then(|s| s.parse().ok()).unwrap_or(60))
+}
+
 pub struct Exec<'a> {
     pub cfg: Cfg,
     pub dir: PathBuf,
@@ -132,7 +137,7 @@ impl<'a> Exec<'a> {
 
     pub async fn wait_idle(&mut self) -> R {
         let deferred = self.cfg.deferred_short();
-        match wait_quiet(self.s(), deferred, MAX_WAIT).await {
+        match wait_quiet(self.s(), deferred, max_wait()).await {
             Ok(_) => Ok(()),
             Err(st) => {
                 if !st.worker_alive() {
@@ -146,7 +151,7 @@ impl<'a> Exec<'a> {
 
     /// Waits until queued messages are processed (not for deferred dumps)
     pub async fn wait_msgs(&mut self) -> R {
-        match wait_quiet(self.s(), false, MAX_WAIT).await {
+        match wait_quiet(self.s(), false, max_wait()).await {
             Ok(_) => Ok(()),
             Err(st) => {
                 if !st.worker_alive() {
